@@ -412,6 +412,12 @@ class Pda:
             items = tuple(f["items"])
             if cf["pending"] is not None:
                 ptype, values, t = cf["pending"]
+                if values is not None:
+                    # a list given for a parameter restricted to a value set: a member outside the set is not allowed under any
+                    # reading of the definition; whether a list of allowed members is, the definition format does not say
+                    if any(it not in values for it in items):
+                        return self._die("BAD_PARAM", cf["node"].name, "value-for-" + t)
+                    self.irregular.add("list-for-value-set")
                 cf["node"].tags[-1][1] = ("sl", items)
                 cf["pending"] = None
                 return
